@@ -4,7 +4,7 @@ CONSTANTS
   Srcs = {"ready_val", "ready_exc", "after_val", "after_err", "run_val", "sched_val", "task_val"}
   Atts = {"inline", "e1", "inh"}
   Args = {"V", "E", "X", "R"}
-  Behs = {"val", "throw", "throw_re", "res_err", "res_exc", "fut_pending", "shared_pending", "task_sched", "task_contract"}
+  Behs = {"val", "throw", "throw_re", "res_err", "fut_pending", "shared_pending", "task_sched", "task_contract"}
   Rejects = {9}
   Starts = {"to_future", "get"}
 INVARIANTS CalledXorDropped DropOnlyWhenStopped RanWhereTold InvokedInOrder LazyEqualsEager CancelRunsNoValueCallback AllocBound Emit
